@@ -132,10 +132,17 @@ class C15(scen.WorldProp):
                   "on_join": scen.humans_on_join(humans),
                   "bot": scen.bot_cfg(spec),
                   "rhythm": scen.rhythm_cfg(kind, peal_speed=ps, max_bells=rng.choice([15, 15, 15, 8, 4, 2, 1]))}
+            twice = rng.random() < 0.5          # Wheatley's name is in the tower twice, its bells shared between the two
+            if not server and rng.random() < 0.3:
+                # Wheatley rings for a name (--name): the bells assigned to users of that name are its own
+                nm = rng.choice(["Bob", "Wheatley", "a b"])
+                sc["on_join"] = scen.humans_on_join(humans, nm, [b for b in range(1, N + 1) if b not in humans], namesake=twice)
+                sc["bot"] = scen.bot_cfg(spec, user_name=nm)
             if server:
                 js = {"type": "method", "stage": N, "notation": "x1", "bob": {"0": "14"}, "single": {"0": "1234"}}
                 sc["events"] = [[1000.05, "msg", {"m": "row_gen", "json": js}]] + events
-                sc["on_join"] = scen.humans_on_join(humans, "Wheatley", [b for b in range(1, 17) if b not in humans])
+                sc["on_join"] = scen.humans_on_join(humans, "Wheatley", [b for b in range(1, 17) if b not in humans],
+                                                    namesake=twice)
                 sc["bot"] = scen.bot_cfg({"type": "placeholder"}, up_down_in=True, user_name="Wheatley", server_id=6)
                 sc["rhythm"] = scen.rhythm_cfg("wait", inertia=1.0, peal_speed=ps)
             yield {"k": "world", "scenario": sc, "t0": t0, "t_lead": t_lead if human_leads else None,
